@@ -27,11 +27,11 @@ pub static DEF: PropDef = PropDef {
 	eval,
 	shrink,
 	rule: "library part: run = (source format, shape in {arrays, maps, alternating, random, key-position (MessagePack)}, target, explicit/detected, read schedule); window runs sweep EVERY depth in limit-6..=limit+6 (limits: MessagePack 1024, JSON 128, YAML 128, TOML 80) and compare slice with readers under never-short, 1-byte and drawn schedules; far runs use one depth from {10^3, 10^4, 10^5, 10^6} (+-jitter). Process part (p runs): the same documents through the debug and release binaries via mmap, a reader fallback (mmap denied) and stdin on an 8 MiB stack. Non-trivial: the window contains both an accepted and a rejected depth, or a far depth was rejected without a crash. Distinct = distinct (format, shape, pattern, target, source selection, schedule).",
-	real: LIB_REAL,
-	stub: LIB_STUB,
+	real: &["xt library under the simulator (library runs)", "the shipped debug and release binaries on an 8 MiB main-thread stack (process runs)", "serde_json, serde_yaml, unsafe-libyaml, rmp, rmp-serde, toml, toml_edit"],
+	stub: &["producer/consumer/caller (library runs)", "byte transport of fds 0/1 and input files, mmap success (process runs: LD_PRELOAD interposer)"],
 	assumptions: &["library runs execute on a thread with an 8 MiB stack (the default main-thread stack of the CLI); a stack overflow kills the crash-isolated worker and is reported as a violation with the run's scenario"],
-	expected_probes: &["window.msgpack", "window.json", "window.yaml", "window.toml", "far", "shape.keys", "msgpack.1023_accepted", "msgpack.1024_rejected", "size_fn_compared", "window.has_accept_and_reject"],
-	needs_bins: false,
+	expected_probes: &["window.msgpack", "window.json", "window.yaml", "window.toml", "far", "shape.keys", "msgpack.1023_accepted", "msgpack.1024_rejected", "size_fn_compared", "window.has_accept_and_reject", "p.spawn", "p.accepted", "p.rejected", "bin.debug", "bin.release", "p.nommap"],
+	needs_bins: true,
 	watchdog_s: 120,
 };
 
@@ -50,7 +50,85 @@ pub fn limit_of(f: Fmt) -> usize {
 	}
 }
 
+fn gen_proc(seed: u64, idx: u64, t: Tier) -> J {
+	use crate::procsim::{FileSpec, ProcCase, ReadPlan};
+	let mut r = Rng::derive(seed, "C18p", idx);
+	let f = *r.pick(&ALL_FMTS);
+	let shape = if f == Fmt::Msgpack { *r.pick(&SHAPES) } else { *r.pick(&SHAPES[..4]) };
+	let limit = limit_of(f);
+	let d = if r.chance(3, 4) {
+		(limit as i64 + r.range(0, 12) as i64 - 6) as usize
+	} else {
+		match (f, shape, t) {
+			(Fmt::Yaml, Shape::Arrays, _) => *r.pick(&[1_000usize, 10_000, 100_000]),
+			(Fmt::Yaml, _, _) => *r.pick(&[1_000usize, 3_000]),
+			(Fmt::Msgpack, _, _) => *r.pick(&[2_000usize, 10_000, 100_000, 1_000_000]),
+			_ => *r.pick(&[1_000usize, 10_000, 100_000, 1_000_000]),
+		}
+	};
+	let bytes = gen::nested(f, shape, d, r.next());
+	let to = *r.pick(&ALL_FMTS);
+	let mut c = ProcCase { bin: if r.chance(1, 2) { "debug" } else { "release" }.to_owned(), ..Default::default() };
+	if to != Fmt::Json {
+		c.args.push(format!("-t{}", to.letter()));
+	}
+	let explicit = r.chance(2, 3);
+	match r.below(3) {
+		0 => {
+			// standard input
+			if explicit {
+				c.args.push(format!("-f{}", f.letter()));
+			}
+			c.stdin = Some(bytes);
+			c.stdin_plan = Some(ReadPlan { sched: if r.chance(1, 2) { gen::gen_sched(&mut r, 4096) } else { Sched::whole() }, ..Default::default() });
+		}
+		k => {
+			let name = if explicit { format!("deep.{}", f.name()) } else { "deep".to_owned() };
+			c.files.push(FileSpec { name: name.clone(), kind: "file".into(), bytes, plan: Some(ReadPlan::default()) });
+			c.args.push(name);
+			c.nommap = k == 2;
+		}
+	}
+	c.params.insert("fmt".into(), json!(f.name()));
+	c.params.insert("shape".into(), json!(shape.name()));
+	c.params.insert("depth".into(), json!(d));
+	c.to_json()
+}
+
+fn eval_proc(case: &J) -> Eval {
+	use crate::procsim;
+	let mut ev = Eval::default();
+	let Some(c) = procsim::ProcCase::from_json(case) else { return ev };
+	let p = procsim::parse_args(&c.args);
+	let o = procsim::run(&c);
+	procsim::write_plan_note(&mut ev, &c, &o);
+	ev.count("p.spawn", 1);
+	let depth = c.params.get("depth").and_then(J::as_u64).unwrap_or(0);
+	let f = c.params.get("fmt").and_then(J::as_str).unwrap_or("?").to_owned();
+	ev.key = mix(hash_str(&case["args"].to_string()), mix(depth, hash_str(&c.bin) ^ u64::from(c.nommap)));
+	ev.trace = mix(hash_str(&o.status()), hash_str(&f));
+	if !procsim::proc_invariants(&mut ev, &c, &o) {
+		return ev;
+	}
+	let ex = procsim::expect_run(&c, &p);
+	if ex.lib_panic.is_some() {
+		return ev;
+	}
+	let tag = format!("{f}/{}/{}", c.params.get("shape").and_then(J::as_str).unwrap_or("?"), c.bin);
+	if o.code != Some(ex.exit) {
+		ev.violate(format!("proc/verdict/{tag}"), format!("xt {:?} on a document nested {depth} deep ended with {}, the library says exit {} ({}); stderr {:?}", c.args, o.status(), ex.exit, ex.failure_kind, crate::scenario::preview(&o.stderr, 160)));
+	} else if ex.exit == 0 && o.stdout != ex.maximal {
+		ev.violate(format!("proc/bytes/{tag}"), format!("xt {:?} at depth {depth}: stdout differs from the library's output", c.args));
+	}
+	ev.count(if ex.exit == 0 { "p.accepted" } else { "p.rejected" }, 1);
+	ev.nontrivial = true;
+	ev
+}
+
 fn gen(seed: u64, idx: u64, t: Tier) -> J {
+	if idx % 4 == 3 {
+		return gen_proc(seed, idx, t);
+	}
 	let mut r = Rng::derive(seed, "C18", idx);
 	let f = *r.pick(&ALL_FMTS);
 	let shape = if f == Fmt::Msgpack { *r.pick(&SHAPES) } else { *r.pick(&SHAPES[..4]) };
@@ -80,6 +158,9 @@ fn gen(seed: u64, idx: u64, t: Tier) -> J {
 }
 
 fn eval(case: &J) -> Eval {
+	if case["kind"].as_str() == Some("proc") {
+		return eval_proc(case);
+	}
 	let sc = parse(case);
 	let mut ev = Eval::default();
 	let f = sc.param_s("fmt").and_then(Fmt::parse).unwrap_or(Fmt::Json);
@@ -199,6 +280,9 @@ fn eval(case: &J) -> Eval {
 }
 
 fn shrink(case: &J) -> Vec<J> {
+	if case["kind"].as_str() == Some("proc") {
+		return vec![];
+	}
 	let sc = parse(case);
 	let mut out = vec![];
 	let f = sc.param_s("fmt").and_then(Fmt::parse).unwrap_or(Fmt::Json);
